@@ -673,8 +673,22 @@ class Keys:
         A = gen_call(ctx, sh, defaults, True, 'A', wit='typed')
         if A.wit is None:
             raise PathPruned()
-        prime = ctx.choice(len(WIT) + 2, 'prime')
+        prime = ctx.choice(len(WIT) + 3, 'prime')
         info = {'kind': 'key depends on what the process computed before'}
+
+        def prime_failed():
+            # session 1 has seen a call whose key could not be generated (an argument no serializer accepts)
+            P = min_call(ctx, sh, 'W')
+            bad = cryptoshim.Unpicklable()
+            try:
+                if P.args:
+                    keyf(bad, *P.args[1:], **P.kw)
+                else:
+                    keyf(**dict(P.kw, **{(list(P.kw) or ['zz'])[0]: bad}))
+            except (PathPruned, Inconclusive):
+                raise
+            except Exception:
+                pass
 
         def prime_sibling():
             # session 1 has keyed another function object of the same code (other default objects) before
@@ -691,6 +705,8 @@ class Keys:
         if cfg.get('print_key'):          # concrete replay: one real interpreter per session
             if cfg['print_key'] == 'primed' and prime == len(WIT) + 1 and defaults:
                 prime_sibling()
+            if cfg['print_key'] == 'primed' and prime == len(WIT) + 2:
+                prime_failed()
             if cfg['print_key'] == 'primed' and prime < len(WIT) and prime != A.wit:
                 same = lambda v: type(v) is type(WIT[A.wit]) and v == WIT[A.wit]
                 keyf(*tuple(WIT[prime] if same(v) else v for v in A.args), **{n: (WIT[prime] if same(v) else v) for n, v in A.kw.items()})
@@ -702,6 +718,8 @@ class Keys:
             cryptoshim.SESSION[0] = 1
             if prime == len(WIT) + 1 and defaults:
                 prime_sibling()
+            if prime == len(WIT) + 2:
+                prime_failed()
             if prime < len(WIT) and prime != A.wit:
                 pa = tuple(WIT[prime] if (type(v) is type(WIT[A.wit]) and v == WIT[A.wit]) else v for v in A.args)
                 pk = {n: (WIT[prime] if (type(v) is type(WIT[A.wit]) and v == WIT[A.wit]) else v) for n, v in A.kw.items()}
@@ -908,7 +926,7 @@ def plan(prop, tier):
                 for km in ('rawtyped', 'strtyped', 'md5typed', 'strflat'):
                     add(sh, km, wit='typed2', kworder=True)       # flat keymaps: the order of the keywords must not matter
             if sh['npos'] or sh['nkwo']:
-                for km in (('str', 'strflat', 'md5', 'rawtyped') if q else ('raw', 'rawtyped', 'rawsent', 'str', 'strflat', 'strtyped', 'pickle', 'picklenf', 'md5', 'md5nf')):
+                for km in (('strflat', 'md5', 'rawtyped', 'sha512_224', 'pickle2') if q else ('raw', 'rawtyped', 'rawsent', 'str', 'strflat', 'strtyped', 'pickle', 'picklenf', 'md5', 'md5nf', 'sha512_224', 'pickle2')):
                     add(sh, km, scenario='session')
         add(quick_shapes()[0], 'raw', scenario='fname')
         add(quick_shapes()[2], 'str', ignore=['a', 'b'], canary=True)
